@@ -192,7 +192,7 @@ class ModelBuilder(object):
                     mapper = sa.inspect(self.model)
 
                     inherit_condition = adapt_columns(
-                        mapper.inherit_condition
+                        mapper.inherit_condition, self.manager
                     )
                     tx_column_name = option(
                         self.model, 'transaction_column_name'
